@@ -78,6 +78,15 @@ CHECKS = {
               "model's all-lower language. A session started with flags and resumed with a plain --load must stay inside the "
               "flagged run's pre-terminals and language. Exploration."),
         design='4/C14'),
+    'C16': dict(
+        technique="Hypothesis property-based testing with scripted uniform draws: breakpoint sweep of the piecewise-constant sampler against exact cumulative sums, scripted in-group choices, end-to-end language/limit/reproducibility checks (in-process and CLI)",
+        text=("The random source seen by the sampler is replaced by a script, so the draw can be placed exactly on, one ulp around and "
+              "between every cumulative-probability breakpoint of the base list and of every variable of generated count-normalised "
+              "rulesets (and of sub-normalised base lists): the selected structure/group must be the interval containing the draw, "
+              "which pins every derivation's probability to 1e-12; every in-group index must yield the corresponding value. "
+              "End-to-end runs must print exactly N words of the model's non-Markov language in both modes and random_walk must "
+              "reproduce itself in-process and across CLI processes. Exploration."),
+        design='4/C16'),
 }
 
 NOT_YET = "check not built yet in this round (design exists in DESIGN.md section 4); not claimed until it runs"
